@@ -91,6 +91,27 @@ def run(tier, rep):
                 wire_b, datas, dec = sock_rec.chunked_body(rnd, pieces, 1, zero=zero, upper=False)
                 calls = drain_calls(len(dec), rnd) + [("read", 1)]
                 tr.add(wire_b, segl, calls, 1, 70000, decoded=dec, kind="hdrcut", cuts=2)
+    # compressible chunk bodies LARGER than the receive buffer size (streaming inflate territory)
+    # (sweep of decoded size against bufsize for periodic bodies of several periods: where the last
+    # back-reference of the compressed stream falls relative to a multiple of bufsize is data dependent)
+    for enc in ENCS[1:]:
+        dense = enc == ENCS[-1] or not quick
+        for ul in (3, 19, 74):
+            unit = bytes(rnd.randrange(256) for _ in range(ul))
+            for bs, sizes in ((16, range(17, 81, 3)), (64, range(65, 300, 6)), (4096, range(4097, 4170, 8))):
+                sizes = list(sizes)
+                if not dense:
+                    sizes = rnd.sample(sizes, 2)
+                elif quick:
+                    sizes = sizes[:: 2]
+                for n in sizes:
+                    body = (unit * (n // ul + 1))[:n]
+                    pieces = [body, unit[: rnd.randint(1, ul)]]
+                    wire, datas, dec = sock_rec.chunked_body(rnd, pieces, enc, zero=rnd.random() < 0.5)
+                    tr.inflate += [p for p in sock_rec.inflate_dict(datas, enc) if p not in tr.inflate]
+                    calls = [("read", len(dec))] if n > 1000 else drain_calls(len(dec), rnd)
+                    tr.add(wire, sockdouble.segmentation(rnd, len(wire), "mixed"), calls + [("read", 1)], enc, bs, decoded=dec,
+                           kind="bigdecoded", cuts=2)
     # larger bodies, all encodings, random partitions
     for i in range(30 if quick else 400):
         pieces = [bytes(rnd.choice([65, 13, 10, 0xD3, 48, rnd.randrange(256)]) for _ in range(rnd.choice([1, 2, 9, 10, 15, 16, 17, 255, 256, rnd.randint(1, 3000)])))
